@@ -414,8 +414,8 @@ private:
     TINS_BEGIN_PACK
     struct pppoe_header {
         #if TINS_IS_LITTLE_ENDIAN
-            uint8_t version:4,  
-                    type:4;
+            uint8_t type:4,
+                    version:4;
             uint8_t code;
         #else
             uint16_t version:4,
